@@ -686,6 +686,8 @@ def _run_inject(sess: Session, rng: random.Random, case: dict):
                 s.do(("W",))
         if what == "pause" and case.get("sweep_at") is not None and step == case["sweep_at"]:
             s.do(("W",))
+        if step in (case.get("recover_at") or ()):
+            s.do(("R",))
         if what == "pause" and not st["unpaused"] and case.get("unpause_at") is not None and step == case["unpause_at"]:
             unpause(s)
         if what == "recover_every":
@@ -812,6 +814,13 @@ def plan(pid: str, tier: str, rng: random.Random) -> list[dict]:
         for n in ("mutex_pair", "choice3", "mutex_suspend", "diamond"):
             for at in range(0, 18, 3):
                 add(kind="inject", what="maintenance", at=at, spec=fam[n], name=n, policy="fifo")
+        # sweeps around a pause / unpause: while tasks are parked, right after the unpause request and while ResumeStage
+        # is being handled (each of these handlers must stay one commit: a sweep in between must find nothing to repair)
+        for n in ("chain3", "multitask", "poll", "diamond"):
+            for at in range(2, 12 if thorough else 9):
+                for gap in (1, 3):
+                    add(kind="inject", what="pause", at=at, unpause_at=at + gap + 2, recover_at=[at + 1, at + gap + 2, at + gap + 3, at + gap + 4],
+                        spec=fam[n], name=n, policy="fifo", cancel_with_unpause=False)
     if pid in ("C17", "C06"):
         for n, spec in list(fam.items()) + (rnd[:30] if thorough else rnd[:6]) + (rndx[:30] if thorough else rndx[:6]):
             for at in range(0, 40 if thorough else 24):
